@@ -110,6 +110,20 @@ func runC02(c *Ctx) {
 			c.Violate("C02:not-decided", fmt.Sprintf("reference battle is decided after %d cycles but gmars does not look decided (count=%d living=%d cycle=%d/%d)", cycles, s.WarriorCount(), s.WarriorLivingCount(), s.CycleCount(), s.MaxCycles()), bc.describe())
 			return
 		}
+		// the battle has stopped: one more RunCycle must not execute anything
+		rec.pops = rec.pops[:0]
+		if p, msg := try(func() { s.RunCycle() }); p {
+			c.Violate("C02:panic-after-end:"+panicSite(msg), msg, bc.describe())
+			return
+		}
+		if len(rec.pops) > 0 {
+			c.Violate("C02:stepped-after-end", fmt.Sprintf("the battle was over after %d cycles (cycle %d/%d, %d living) but another RunCycle executed %v", cycles, ref.Cycle, ref.C, ref.Living, rec.pops), bc.describe())
+			return
+		}
+		if ok, d := compareBattle(s, ws, ref, 0); !ok {
+			c.Violate("C02:changed-after-end", "RunCycle on the finished battle changed the state: "+d, bc.describe())
+			return
+		}
 		if ref.Cycle >= ref.C && ref.Living > 1 {
 			events["cycle-limit-multi-alive"] = true
 			c.Inc("cycle_limit_with_several_alive")
